@@ -163,6 +163,8 @@ def kernel_cases(chk, drv, C):
     modes = ['fEq', 'null', 'periodic']
     worst = 0.0
     excluded = 0
+    prof_names = ('CTi', 'kTi', 'deltaRTi', 'CTe', 'kTe', 'deltaRTe', 'kN0', 'deltaRN0')
+    prof_default = {k: getattr(C, k) for k in prof_names}
     for it in range(chk.n(420, 6000)):
         kind = kinds[it % len(kinds)] if it < 3 * len(kinds) * 3 else rng.choice(kinds)
         mode = modes[(it // len(kinds)) % 3] if it < 3 * len(kinds) * 3 else rng.choice(modes)
@@ -198,10 +200,25 @@ def kernel_cases(chk, drv, C):
         case = {'kind': kind, 'ncells': ncells, 'lo': lo, 'hi': hi, 'mode': mode, 'r': r, 'c': c, 'dt': dt,
                 'family': fam, 'f': [float(x) for x in f0], 'nonuniform_breaks': [float(x) for x in basis.breaks]}
         # --- the real code
+        # every second case with profile constants away from their defaults (the electron and ion temperature profiles coincide by
+        # default); the boundary value of the property is the ION equilibrium (feq_real reads the same Constants object)
+        prof = dict(prof_default)
+        if it % 2 == 1:
+            prof = {'CTi': rng.uniform(0.6, 1.4), 'kTi': rng.uniform(0.05, 0.4), 'deltaRTi': rng.uniform(0.8, 3.0),
+                    'CTe': rng.uniform(0.6, 1.4), 'kTe': rng.uniform(0.05, 0.4), 'deltaRTe': rng.uniform(0.8, 3.0),
+                    'kN0': rng.uniform(0.02, 0.1), 'deltaRN0': rng.uniform(1.5, 4.0)}
+            case['profile_constants'] = prof
+        for k_, v_ in prof.items():
+            setattr(C, k_, v_)
         adv = VParallelAdvection([None, None, None, pts], basis, C, mode)
-        f = f0.copy()
+        # the line is handed over as a strided view every third time (a line of a 4-D array in another memory order)
+        big = np.full(2 * n, 3.5)
+        f = big[::2] if it % 3 == 0 else f0.copy()
+        f[:] = f0
         try:
             adv.step(f, dt, c, r)
+            if it % 3 == 0 and not (big[1::2] == 3.5).all():
+                chk.fail('C11:memory-layout', 'step on a strided line touched the memory between its entries', case)
         except Exception as e:  # noqa: BLE001
             chk.fail('C11:step-raises', 'VParallelAdvection.step raised %s: %s' % (type(e).__name__, str(e)[:120]), case)
             continue
@@ -298,6 +315,8 @@ def kernel_cases(chk, drv, C):
         chk.case(('vpar', kind, ncells, mode, fam, round(float(cdt), 12), dom), nontrivial=nontrivial,
                  sample={'kind': kind, 'ncells': ncells, 'mode': mode, 'c*dt': float(cdt), 'family': fam,
                          'branches': sorted(branches), 'f_new[:3]': [float(x) for x in f[:3]]} if it < 3 else None)
+    for k_, v_ in prof_default.items():
+        setattr(C, k_, v_)
     chk.notes['excluded_near_threshold_nodes'] = excluded
     chk.notes['worst_model_difference_over_tolerance'] = round(worst, 4)
 
